@@ -238,6 +238,24 @@ func plans(sv svcDef, tier string, seed int64) []runPlan {
 			ps = append(ps, runPlan{Kind: "history", Sess: []int{probe}, Hist: h})
 		}
 	}
+	// clients that share a host: distinct addresses that differ in the port only (NAT, two processes on one
+	// machine). For the datagram service the pair stays within the per-host reply budget (4), which the
+	// solo runs do not share.
+	sameLimit := 6
+	if tier == "thorough" {
+		sameLimit = 40
+	}
+	for a := 0; a < len(sv.Sess); a++ {
+		for b := a; b < len(sv.Sess); b++ {
+			if sv.Net == "udp" && steps(a)+steps(b) > 4 {
+				continue
+			}
+			for _, o := range interleavings([]int{steps(a), steps(b)}, sameLimit, r) {
+				ps = append(ps, runPlan{Kind: "interleave-samehost", Sess: []int{a, b}, Order: o})
+			}
+			ps = append(ps, runPlan{Kind: "concurrent-samehost", Sess: []int{a, b}})
+		}
+	}
 	return ps
 }
 
@@ -432,9 +450,12 @@ var stuckCount int
 
 var addrSeq int
 
-func newLive(srv *lab.Server, sv svcDef, tmpl int, tok string, steps [][]byte) *live {
+func newLive(srv *lab.Server, sv svcDef, tmpl int, tok string, steps [][]byte, host string) *live {
 	addrSeq++
 	l := &live{tmpl: tmpl, tok: tok, ip: fmt.Sprintf("198.51.%d.%d", 100+(addrSeq>>8)&127, addrSeq&255), port: 30000 + addrSeq%30000, steps: steps}
+	if host != "" {
+		l.ip = host
+	}
 	if sv.Net == "tcp" {
 		l.cc = srv.L.DialTCP(lab.TCPAddr("10.0.0.1", sv.Port), lab.TCPAddr(l.ip, l.port))
 		l.cl = lab.NewClient(l.cc)
@@ -525,7 +546,7 @@ func (prop) Child(b core.Batch, o *core.Obs) {
 	}
 	for k := b.From; k < to && k < len(ps); k++ {
 		pl := ps[k]
-		if b.Race && pl.Kind != "concurrent" && pl.Kind != "solo" {
+		if b.Race && pl.Kind != "concurrent" && pl.Kind != "concurrent-samehost" && pl.Kind != "solo" {
 			continue
 		}
 		o.Begin(k)
@@ -543,7 +564,11 @@ func (prop) Child(b core.Batch, o *core.Obs) {
 		mk := func(i, tmpl int) *live {
 			tok := "tk" + core.NewRng(b.Seed, "C03/tok", k*10+i).Alnum(10)
 			toks[tok] = fmt.Sprintf("<TOK%d>", i)
-			return newLive(srv, sv, tmpl, tok, sv.Sess[tmpl].Steps(tok))
+			host := ""
+			if strings.HasSuffix(pl.Kind, "-samehost") && len(ls) > 0 {
+				host = ls[0].ip
+			}
+			return newLive(srv, sv, tmpl, tok, sv.Sess[tmpl].Steps(tok), host)
 		}
 		switch pl.Kind {
 		case "solo", "history":
@@ -555,7 +580,7 @@ func (prop) Child(b core.Batch, o *core.Obs) {
 				} else {
 					steps = sv.Sess[h%len(sv.Sess)].Steps(tok)
 				}
-				hl := newLive(srv, sv, -1, tok, steps)
+				hl := newLive(srv, sv, -1, tok, steps, "")
 				for range steps {
 					hl.step(srv, sv)
 				}
@@ -566,14 +591,14 @@ func (prop) Child(b core.Batch, o *core.Obs) {
 			for range l.steps {
 				l.step(srv, sv)
 			}
-		case "interleave":
+		case "interleave", "interleave-samehost":
 			for i, t := range pl.Sess {
 				ls = append(ls, mk(i, t))
 			}
 			for _, si := range pl.Order {
 				ls[si].step(srv, sv)
 			}
-		case "concurrent":
+		case "concurrent", "concurrent-samehost":
 			for i, t := range pl.Sess {
 				ls = append(ls, mk(i, t))
 			}
